@@ -31,6 +31,15 @@ PROPS = {
         "note": "Trusted: Lean kernel (decide +kernel, axioms propext only); hand-written action summaries (Model/AbsC06.lean) tied by trace inclusion on generated scenarios only; ValidateTx deterministic; simulated Lightning back-end (union of LND-like refusal and CLN-like idempotent repay); bbolt atomic.",
         "design_ref": "DESIGN.md §4 C06",
     },
+    "C21": {
+        "module": "PsVerif.Props.C21",
+        "slices": [("wire", 3000, 200000)],
+        "monitor": (3000, 100000),
+        "technique": "Lean 4 theorems (decide over the generated type table; strconv hex model; guard order of OnMessageReceived); differential correspondence on type strings, hex printing and the real handler's guard outcomes; Go monitor for JSON round-trip of all seven message structs and junk handling",
+        "text": "Proved: the nine generated numbers are 42069+2k, odd, distinct; every swap message struct's MessageType() is its protocol number; its hex string parses back to it (FormatInt/ParseInt model) and only strings denoting one of the nine are classified as peerswap; payloads over 102400 bytes, unparsable or foreign type strings and the two poll types never reach decoding. The JSON content round-trip and 'junk changes no swap / no panic' are checked by the monitor on the real code, not proved (the generic codec theorem is planned with C14).",
+        "note": "Trusted: Lean kernel; model of strconv.ParseInt/FormatInt base 16 tied by the wire slice; encoding/json itself; 'malformed' is judged as: payload not a JSON object of the message's schema or carrying an undecodable swap id.",
+        "design_ref": "DESIGN.md §4 C21",
+    },
     "C24": {
         "module": "PsVerif.Props.C24",
         "slices": [("route", 4000, 200000)],
@@ -48,6 +57,15 @@ PROPS = {
         "text": "Proved for all amounts/rates: inside the no-overflow range (in particular amount <= 2^43 sat, |rate| <= 10^6) the premium is amount*rate/10^6 truncated toward zero; rate selection is peer, else stored default, else built-in; set/get/delete refine a finite map (all op sequences by induction over the bucket) and keys of distinct (peer, asset, op) never collide. The advertised-equals-charged clause is part of the model (both read getRate) and is tied by the differential slice that captures the real poll payload.",
         "note": "Trusted: Lean kernel; hand-written model of premium.go/store.go tied by differential testing incl. reopen of the bbolt file; bbolt atomicity; outside the no-overflow range the product wraps (shown by the model, reported under C12).",
         "design_ref": "DESIGN.md §4 C27",
+    },
+    "C29": {
+        "module": "PsVerif.Props.C29",
+        "slices": [("upgrade", 300, 6000)],
+        "monitor": (300, 6000),
+        "technique": "Lean 4 theorems over a model of SafeUpgrade and the GENERATED IsFinished/state tables (terminal iff no outgoing edge, by decide); differential correspondence against the real VersionService + bbolt swap store; Go monitor",
+        "text": "Proved for all stored versions and all lists of swap states: same version -> unchanged; otherwise the current version is stored iff every persisted swap is terminal, else an error and no new version; IsFinished (evaluated in the running code for every state) coincides with 'no outgoing edge' in all four generated tables. The slice runs every single-swap state of every role exhaustively plus random multi-swap stores and compares result, stored version and the swaps bucket bytes.",
+        "note": "Trusted: Lean kernel; model of SafeUpgrade tied by differential testing; bbolt transactions; ListAll decoding every record (a record that fails to decode makes HasActiveSwaps fail: not modelled).",
+        "design_ref": "DESIGN.md §4 C29",
     },
     "C30": {
         "module": "PsVerif.Props.C30",
